@@ -401,34 +401,31 @@ def fpLoop (lf : Option Rat) : Nat → List RawLine → FP → Res FP
   | _, [], s => pure s
   | i, l :: ls, s => do let s' ← fpStep lf i l s; fpLoop lf (i + 1) ls s'
 
-/-- what `firstpass` hands on. -/
+/-- what `firstpass` hands on (besides the two table offsets, which stay in `FP`). -/
 structure FirstPass where
   natoms : Nat
   hilo : HiLo
   box : Box Rat
-  atomsStart : Nat
   atomsColumns : Nat
   hint : Option (List Char)
   masses : List (Option Rat)
-  velStart : Option Nat
 deriving Repr
 
-/-- `firstpass(data, pbc, symbols, units)`: the loop, then the checks in the order of the code. -/
-def firstPass (lf : Option Rat) (lines : List RawLine) : Res FirstPass := do
-  let s ← fpLoop lf 0 lines {}
-  if lines.length ≤ 1 then throw "notfound"
+/-- the checks of `firstpass` after its loop, in the order of the code; `short` = the file has at most one line
+    (`i == 0` after the loop: taken for a file name that does not exist). -/
+def fpFinish (s : FP) (short : Bool) : Res FirstPass := do
+  if short then throw "notfound"
   let natoms ← match s.natoms with | some n => pure n | none => throw "format"
   let x ← match s.x with | some v => pure v | none => throw "format"
   let y ← match s.y with | some v => pure v | none => throw "format"
   let z ← match s.z with | some v => pure v | none => throw "format"
-  let start ← match s.atomsStart with | some v => pure v | none => throw "format"
+  if s.atomsStart.isNone then throw "format"
   let box ← match Box.ofHiLos? x.1 x.2 y.1 y.2 z.1 z.2 s.xy s.xz s.yz with
     | some b => pure b
     | none => throw "assert"
   if natoms < 0 then throw "value"
   pure { natoms := natoms.toNat, hilo := ⟨x.1, x.2, y.1, y.2, z.1, z.2, s.xy, s.xz, s.yz⟩, box := box,
-         atomsStart := start, atomsColumns := s.atomsColumns, hint := s.hint, masses := s.masses.getD [],
-         velStart := s.velStart }
+         atomsColumns := s.atomsColumns, hint := s.hint, masses := s.masses.getD [] }
 
 /-- `System.__init__`: without `symbols` one `None` symbol per given mass. -/
 def initSymbols (symbols : Option (List (Option String))) (masses : List (Option Rat)) : List (Option String) :=
@@ -517,8 +514,10 @@ def loadDataCore (fp : FirstPass) (rowsA : List Line) (rowsV : Option (List Line
 def loadDataLines (lines : List RawLine) (pbc : V3 Bool) (symbols : Option (List (Option String)))
     (styleArg : Option String) (u : Units) : Res Loaded := do
   let lf ← lengthFactor u
-  let fp ← firstPass lf lines
-  loadDataCore fp (rowsOf true (lines.drop fp.atomsStart)) (fp.velStart.map fun vs => rowsOf true (lines.drop vs))
+  let s ← fpLoop lf 0 lines {}
+  let fp ← fpFinish s (decide (lines.length ≤ 1))
+  -- `atomsStart` is set here: `fpFinish` raised the format error otherwise
+  loadDataCore fp (rowsOf true (lines.drop (s.atomsStart.getD 0))) (s.velStart.map fun vs => rowsOf true (lines.drop vs))
     pbc symbols styleArg u
 
 def loadData (text : List Char) (pbc : V3 Bool) (symbols : Option (List (Option String)))
